@@ -35,10 +35,12 @@ CONTRACTS = {
               ('derived-lists-hold-model-pairs', LISTS_OK.format('project_lists') + ' and ' + LISTS_OK.format('lecturer_lists') + ' and ' + LISTS_OK.format('rank_lists')),
               ('well-formed-targets', 'forall(k, 0, self.model.num_lecturers, 0 <= self.model.lec_lower_quotas[k] and 0 <= self.model.lec_targets[k] and self.model.lec_targets[k] <= self.model.lec_upper_quotas[k])'),
               ('stability-needs-two-sided-lists', 'implies(' + OP + 'extra_constraints[Extra_constraints.STAB], two_sided(self.model))'),
+              # what set_rank_lists guarantees for EVERY weight of pair objects (lemma C02/rank-sums-compose)
+              ('rank-list-sums-for-every-weight', 'forall(j, 0, len(self.model.rank_lists), wsum(self.model.rank_lists[j]) == RANKW(j))'),
               ('each-criterion-at-most-once', 'forall(a, 0, len(' + OP + 'optimisation_options), forall(b, a + 1, len(' + OP + 'optimisation_options), ' + OP + 'optimisation_options[a][0] != ' + OP + 'optimisation_options[b][0]))'),
               ('criteria-are-members', 'forall(a, 0, len(' + OP + 'optimisation_options), 1 <= ' + OP + 'optimisation_options[a][0] and ' + OP + 'optimisation_options[a][0] <= 9)'),
               ('extras-are-lists-where-used', 'forall(a, 0, len(' + OP + 'optimisation_options), implies(' + ' or '.join(OP + 'optimisation_options[a][0] == Optimisation_options.' + c for c in ('GENEROUS', 'GREEDY', 'MINCOST', 'MINSQCOST', 'MINCOSTLSB')) + ', ' + OP + 'optimisation_options[a][1] != None))')],
-    defs=dict(ULC, BF=([], OP + 'solver_options[Solver_options.BRUTEFORCE]'), PCF=([], OP + 'instance_options[Instance_options.PC]')),
+    defs=dict(ULC, RANKW=(['j'], 'Sum(i, len(self.model.pairs), Sum(c, len(self.model.pairs[i]), ite(self.model.pairs[i][c].rank_student == j + 1, W(self.model.pairs[i][c]), 0)))'), BF=([], OP + 'solver_options[Solver_options.BRUTEFORCE]'), PCF=([], OP + 'instance_options[Instance_options.PC]')),
     modifies=['self.solver', 'self.model.time_limit', 'self.model.time_after_model_creation', 'self.model.time_after_solve', 'self.model.pulp_status', 'self.model.info_string',
               'self.model.project_closures', 'self.model.abs_lec_diff', 'self.model.lec_overload', 'self.model.lec_underload', 'heap:lp_var', 'heap:alpha_var', 'heap:beta_var',
               'ghost:*'],
